@@ -20,6 +20,8 @@ LITERAL = {
     '&': ' & ', '<': ' < ', '>': ' > ', '"': ' " ', "'": " ' ", '\\': ' \\\\ ', '{': ' { ', '}': ' } ', '$': ' $ ', '%': ' % ', '#': ' # ',
     '_': ' _ ', '^': ' ^ ', '~': ' ~ ', '*': ' * ', '[': ' \\[ ', ']': ' \\] ', '(': ' ( ', ')': ' ) ', '/': ' / ', '`': ' \\` ', 'é': ' é ', '中': ' 中 ', '\U0001F600': ' \U0001F600 ',
     '=': ' = ', '+': ' + ', '!': ' ! ', '@': ' @ ', ';': ' ; ', ',': ' , ', '?': ' ? ',
+    # sequences that look like the beginning or end of markup but are plain text on their own (smart typography is off here)
+    '<!--': ' <!-- ', '-->': ' --> ', ']]>': ' \\]\\]> ', '&#': ' &# ', '<!': ' <! ', '</': ' </ ', '<?': ' <? ', '--': ' -- ', '...': ' ... ',
 }
 TEXT_SLOTS = ['paragraph', 'atx-heading', 'atx-closed', 'setext-heading', 'bullet-item', 'enum-item', 'loose-item', 'quote', 'table-cell', 'table-head', 'definition', 'term',
               'link-text', 'inline-footnote', 'ref-footnote', 'emphasis', 'strong', 'meta-title', 'meta-custom']
@@ -28,7 +30,7 @@ ATTR_SLOTS = ['link-title', 'image-alt', 'image-title', 'ref-title']
 
 HTML_OK = re.compile(r'^(?:[^&<>"]|&(?:amp|lt|gt|quot|apos|#\d+|#x[0-9a-fA-F]+);)*$')
 HTML_TEXT_OK = re.compile(r'^(?:[^&<>]|&(?:amp|lt|gt|quot|apos|#\d+|#x[0-9a-fA-F]+);)*$')
-LATEX_ESC = r'\\textbackslash\{\}|\\ensuremath\{\\sim\}|\\slash\{\}|\\\^\{\}|\$<\$|\$>\$|\\textbar\{\}|\\[#{}$%&_]'
+LATEX_ESC = r'(?<=-)\{\}(?=-)|\\textbackslash\{\}|\\ensuremath\{\\sim\}|\\slash\{\}|\\\^\{\}|\$<\$|\$>\$|\\textbar\{\}|\\[#{}$%&_]'
 LATEX_OK = re.compile(r'^(?:[^\\{}$%&#_^~]|' + LATEX_ESC + r')*$')
 
 
@@ -143,7 +145,8 @@ def escaping_case(r, s, rng, i):
                 raw = 'x'         # '\\ ' after a definition line is an escaped space of the continued paragraph, not code
             return raw
         if kind in ATTR_SLOTS:
-            return {'"': "'", '\\': '\\\\', '[': '\\[', ']': '\\]', '`': '\\`', '(': 'x', ')': 'x'}.get(c, c)
+            m = {'"': "'", '\\': '\\\\', '[': '\\[', ']': '\\]', '`': '\\`', '(': 'x', ')': 'x'}
+            return ''.join(m.get(ch, ch) for ch in c)
         return LITERAL[c].strip()
     kinds = TEXT_SLOTS + VERBATIM_SLOTS + ATTR_SLOTS
     text, sl = slots.build(rng, payload, kinds=kinds, nslots=rng.randint(3, 8))
@@ -217,7 +220,7 @@ FWORD = re.compile(r'(?<![A-Za-z0-9])f\d+(?![A-Za-z0-9])')
 
 def conservation_case(r, s, rng, i):
     g = gendoc.Gen(rng, sentinels=True, features=set(['emph', 'strong', 'code', 'link', 'esc', 'entity', 'break', 'quote', 'list', 'codeblock', 'rule', 'heading', 'table', 'deflist',
-                                                       'footnote', 'math', 'supsub']))
+                                                       'footnote', 'nested-footnote', 'math', 'supsub']))
     doc = g.doc()
     sp = gendoc.Spelling(rng, eol='\n')
     text = gendoc.serialize(doc, sp)
